@@ -577,7 +577,8 @@ PdHolds(c, r) ==
     (* ---- translate_region_to_bins: "Map genomic coordinates to bin indices. Return a tuple of (chrom, start, end), just
             like unpack_range" ---- *)
       [] c = "rb_noerr" -> Ok(r)
-      [] c = "rb_passthrough" -> (Ok(r) /\ ~HasCoords(r)) =>
+    (* (the text "chr:-" is left to the A-layer: the code reads it as the chromosome alone, the docstring as start 0) *)
+      [] c = "rb_passthrough" -> (Ok(r) /\ r.rk \in {"none", "chrom"}) =>
             (IF r.rk = "none" THEN ~r.hc /\ ~r.hs /\ ~r.he ELSE r.hc /\ r.c = r.rc /\ ~r.hs /\ ~r.he)
     (* the index range contains every bin wholly inside the region and only bins that overlap it *)
       [] c = "rb_bracket" -> (Ok(r) /\ HasCoords(r)) =>
@@ -691,13 +692,13 @@ PdHolds(c, r) ==
       [] c = "sel_empty_gene_no_highlight" -> (~r.bybin /\ r.hg /\ Req(r) = {} /\ ClosedRange(r)) =>
             (Ok(r) /\ ObsGenes(r) = {} /\ r.hw /\ r.wlo = r.rs /\ r.whi = r.re)
     (* "Prune plotted elements to the selected region": exactly the bins overlapping the window ... *)
-      [] c = "sel_probes_exact" -> (Ok(r) /\ r.which = "chrom") =>
+      [] c = "sel_probes_exact" -> (Ok(r) /\ r.which = "chrom" /\ r.chrom # 0) =>
             r.probes = (IF TB(r) THEN Want(SelTab(r), "outer", QWin(r.chrom, r.hw, r.wlo, r.whi)) ELSE <<>>)
     (* ... the segments overlapping it, trimmed to it ... *)
-      [] c = "sel_segs_trimmed" -> (Ok(r) /\ r.which = "chrom" /\ ~r.bybin) =>
+      [] c = "sel_segs_trimmed" -> (Ok(r) /\ r.which = "chrom" /\ r.chrom # 0 /\ ~r.bybin) =>
             r.segs = (IF TSG(r) THEN Want(r.sg, "trim", QWin(r.chrom, r.hw, r.wlo, r.whi)) ELSE <<>>)
     (* ... and the variants in it *)
-      [] c = "sel_snvs_exact" -> (Ok(r) /\ r.which = "chrom" /\ ~r.bybin) =>
+      [] c = "sel_snvs_exact" -> (Ok(r) /\ r.which = "chrom" /\ r.chrom # 0 /\ ~r.bybin) =>
             r.snvs = (IF TV(r) THEN Want(Scale(r.va, 840), "outer", QWin(r.chrom, r.hw, 840 * r.wlo, 840 * r.whi)) ELSE <<>>)
     (* every invocation the documentation describes succeeds *)
       [] c = "sel_noerr_doc" -> SelDocOK(r) => Ok(r)
@@ -731,7 +732,7 @@ PdHolds(c, r) ==
     (* -c: "Chromosome to display, e.g. 'chr1' (no chromosomal range allowed)";
        ValueError("Must provide chromosome only (genomic-range not allowed for 'diagram').") *)
       [] c = "dg_range_rejected" -> HasCoords(r) => r.err = "ValueError"
-      [] c = "dg_chrom_only" -> (r.rk = "chrom" /\ Ok(r)) => \A k \in 1..Len(r.feats) : r.feats[k][1] = r.rc
+      [] c = "dg_chrom_only" -> (r.rk # "none" /\ Ok(r)) => \A k \in 1..Len(r.feats) : r.feats[k][1] = r.rc
     (* -t "Copy number change threshold to label genes"; -m "Minimum number of covered probes to label a gene" *)
       [] c = "dg_labels_threshold" -> Ok(r) =>
             /\ \A k \in 1..Len(r.feats) : LET f == r.feats[k] IN f[5] # <<>> =>
@@ -743,7 +744,7 @@ PdHolds(c, r) ==
     (* ... and every gene that reaches both thresholds is labelled (once), provided one of its rows is drawn at all  *)
     (* (rows starting at 0 are skipped by the code's "sanity check" -- A-layer)                                      *)
       [] c = "dg_qualifying_labelled" -> (Ok(r) /\ r.labels) =>
-            LET shown == IF r.rk = "chrom" THEN {r.rc} ELSE 1..1000
+            LET shown == IF r.rk # "none" THEN {r.rc} ELSE 1..1000        \* "chr" and "chr:-" both select the chromosome
                 lab == {r.feats[k][5] : k \in 1..Len(r.feats)}
             IN IF DgIsSeg(r)
                THEN \A row \in Range(r.sg) :
@@ -759,7 +760,7 @@ PdHolds(c, r) ==
             \/ f[4] = -1 /\ \E row \in Range(r.sg) : C(row) = f[1] /\ S(row) - 1 = f[2] /\ E(row) = f[3]
             \/ f[4] = 1 /\ \E row \in Range(r.sq) : C(row) = f[1] /\ S(row) - 1 = f[2] /\ E(row) = f[3]
     (* ---- heatmap ---- *)
-      [] c = "hm_noerr" -> ~(r.bybin /\ HasCoords(r) /\ \A i \in 1..HmN(r) : r.samples[i][1]) => Ok(r)
+      [] c = "hm_noerr" -> ~(r.bybin /\ r.rk = "range" /\ \A i \in 1..HmN(r) : r.samples[i][1]) => Ok(r)
     (* "The samples are shown in the order they're given on the command line" *)
       [] c = "hm_samples_in_order" -> Ok(r) => r.labels = [i \in 1..HmN(r) |-> i]
     (* "Draw copy number (either bins or segments) for multiple samples as a heatmap" / "-c": each sample's row shows
